@@ -77,8 +77,9 @@ structure TObj where
   degree : Nat
   bias : Bool
   pipe : Option (Nat × Bool)      -- (degree, include_bias) of `regressor_`; `none` before the first fit
-  y : List Val
-  origin : Int
+  y : List Val                    -- the data seen by the last fit
+  origin : Int                    -- first time point of that data = `_fit_start` (stored by fit since ea521a6; the C11
+                                  -- histories contain no `update`, so it is also `_y.index[0]`)
   deriving Repr
 
 def TObj.new (degree : Nat) (bias : Bool) : TObj := { degree, bias, pipe := none, y := [], origin := 0 }
